@@ -764,8 +764,24 @@ def to_xml(sch):
     return S.to_xml(s)
 
 
+def normalise(sch):
+    """what the parser fills in: `length` of a constant `char` type without the attribute is the length of its value"""
+    import copy
+    s = copy.deepcopy(sch)
+
+    def fix(e):
+        if e['k'] == 'type' and e.get('presence') == 'constant' and e.get('prim') == 'char' and e.get('length') is None \
+                and e.get('const') is not None:
+            e['length'] = len(e['const'].encode('utf-8'))
+        for x in e.get('elems', []):
+            fix(x)
+    for t in s['types']:
+        fix(t)
+    return s
+
+
 def to_sexp(sch):
-    s = dict(sch)
+    s = normalise(sch)
     s['package'] = sch.get('schemaName', sch['package'])
     base = S.to_sexp(s)
     extra = ''
@@ -1085,7 +1101,10 @@ class TU:
                 self.emit('{ auto %s = %s.%s(); auto c%s = c%s.%s(); tu::use(::sbepp::get_by_tag<%s>(%s));'
                           % (sub, view, x['name'], sub, view, x['name'], etag, view))
                 if depth < 4:
-                    self.composite_access(sub, target, etag, depth + 1)
+                    # a ref's own tag only inherits the element tags of the referred composite (`C::r::x` is not a
+                    # documented path and names a constructor when `x == r`): use the referred type's tag
+                    self.composite_access(sub, target, ('::%s::schema::types::%s' % (self.ns, target['name']))
+                                          if k == 'ref' else etag, depth + 1)
                 self.emit('}')
             elif tk != 'missing':
                 self.access_value(view, x['name'], tk, etag)
